@@ -38,7 +38,7 @@ MANIFEST = {
     "technique": "Lean 4 proof over executable models + differential correspondence model vs implementation + implementation-side "
                  "oracles (round trips, independent SEC/DER reference, hashlib)",
 }
-RULE = ("ops sec_enc/sec_dec/sec_dec_c/key_from_sec/key_ctor_d/key_ctor_pair/key_addr/wif_enc/wif_dec/der_enc/der_dec/der_int/der_len/der_rdlen/"
+RULE = ("ops key_verify (raw DER: real signatures and every malformation of them)/key_sign_pub/key_override/key_override_pub/key_public/is_sec/key_nohier/sec_enc/sec_dec/sec_dec_c/key_from_sec/key_ctor_d/key_ctor_pair/key_addr/wif_enc/wif_dec/der_enc/der_dec/der_int/der_len/der_rdlen/"
         "der_rmint/der_rmseq; boundary corpus (every SEC blob shape of length 0..70 x prefix 0..7 x x in {0,1,p-1,p,p+1,p+k,2^256-1}; DER "
         "sign-padding and length-form boundaries, single-byte corruptions, truncations, trailing bytes; exponents 0,1,n-1,n,n+1,2^256-1; "
         "WIF on every network) + seeded random; distinct = distinct op line; trivial = SEC blob whose length is neither 33 nor 65")
@@ -169,6 +169,39 @@ def eval_op(op: str) -> str:
                 return "ok none"
             se = key.secret_exponent()
             return "ok public" if se is None else "ok %d %d" % (se, 1 if key.is_compressed() else 0)
+        if k == "is_sec":
+            from pycoin.encoding.sec import is_sec
+            return "ok %d" % (1 if is_sec(unhx(a[1])) else 0)
+        if k == "key_nohier":
+            key = nets()[a[1]].keys.private(int(a[2]), is_compressed=a[3] == "1")
+            return "ok %d %d %d" % (key.subkey() is key and key.subkey("0/1") is key, key.subkey_for_path("0/1H") is key,
+                                    [x is key for x in key.subkeys("0-3")] == [True])
+        if k == "key_verify":
+            key = nets()["btc"].keys.public(unhx(a[1]))
+            return "ok %d" % (1 if key.verify(unhx(a[2]), unhx(a[3])) else 0)
+        if k == "key_sign_pub":
+            key = nets()[a[1]].keys.public(unhx(a[2]))
+            key.sign(unhx(a[3]))
+            return "ok signed"
+        if k == "key_override":
+            key = nets()[a[2]].keys.private(int(a[4]), is_compressed=a[5] == "1")
+            k2 = key.override_network(nets()[a[3]])
+            w = k2.wif()
+            return "ok %d %d %s" % (k2.secret_exponent(), 1 if k2.is_compressed() else 0, "None" if w is None else hx(w.encode("utf8")))
+        if k == "key_override_pub":
+            nets()[a[1]].keys.public(unhx(a[3])).override_network(nets()[a[2]])
+            return "ok converted"
+        if k == "key_public":
+            flag = {"c": True, "u": False, "d": None}[a[3]]
+            if a[2][0] == "s":
+                item = unhx(a[2][1:])
+            elif a[2] == "pinf":
+                item = (None, None)
+            else:
+                item = tuple(int(t) for t in a[2][1:].split(","))
+            key = nets()[a[1]].keys.public(item, is_compressed=flag) if flag is not None else nets()[a[1]].keys.public(item)
+            x, y = key.public_pair()
+            return "ok %d %d %d" % (x, y, 1 if key.is_compressed() else 0)
         if k == "der_enc":
             return "ok " + hx(der.sigencode_der(int(a[1]), int(a[2])))
         if k == "der_dec":
@@ -193,7 +226,7 @@ def eval_op(op: str) -> str:
 
 # ------------------------------------------------------------------ worker client (harness side)
 
-CFG_OPS = ("key_ctor_d", "key_addr", "wif_enc", "wif_dec")
+CFG_OPS = ("key_ctor_d", "key_addr", "wif_enc", "wif_dec", "key_override")
 _WORKER = None
 
 
@@ -429,6 +462,44 @@ def oracle(op: str, out: str):
         if len(blob) == 1 + 2 * bc and blob[0] == 4:
             if int.from_bytes(blob[1:1 + bc], "big") < p_ and int.from_bytes(blob[1 + bc:], "big") < p_:
                 return "a well-formed uncompressed SEC blob was refused on " + a[1]
+    if k == "is_sec":
+        b = unhx(a[1])
+        if (out == "ok 1") != ((len(b) == 33 and b[0] in (2, 3)) or (len(b) == 65 and b[0] == 4)):
+            return "is_sec does not test for prefix 02/03 with 33 bytes or 04 with 65"
+        if out == "ok 0" and impl("key_from_sec btc " + a[1]).startswith("ok "):
+            return "is_sec refuses a blob Key.from_sec accepts"
+    if k == "key_nohier" and out.startswith("ok ") and out != "ok 1 1 1":
+        return "a plain Key's subkey()/subkey_for_path()/subkeys() is not the key itself"
+    if k == "key_verify":
+        # strictness seen from outside: whatever strict DER decoding refuses must be False, never an exception
+        if out.startswith("err ") and ref_sec_point(unhx(a[1])) is not None:
+            return "Key.verify raised %s instead of answering" % out[4:]
+        if out == "ok 1":
+            sig = unhx(a[3])
+            d = impl("der_dec 1 " + hx(sig))
+            if not d.startswith("ok "):
+                return "Key.verify accepted a signature that strict DER decoding refuses"
+            if ref_der_trailing(sig):
+                return "Key.verify accepted a signature with bytes after the sequence or after the second integer"
+    if k == "key_sign_pub" and out != "err RuntimeError" and ref_sec_point(unhx(a[2])) is not None:
+        return "a public key signed (or failed otherwise than documented): " + out
+    if k == "key_override" and out.startswith("ok "):
+        f = out.split(" ")
+        if int(f[1]) != int(a[4]):
+            return "override_network changed the secret exponent"
+        back = impl("wif_dec %s %s %s" % (a[1], a[3], f[3])) if f[3] != "None" else None
+        if back is not None and back != "ok %s %s" % (f[1], f[2]):
+            return "the WIF of the overridden key does not parse back to it on the other network"
+    if k == "key_override_pub" and out != "err ValueError" and ref_sec_point(unhx(a[3])) is not None:
+        return "override_network of a public key: " + out
+    if k == "key_public":
+        if a[2][0] == "s" and a[3] != "d" and out != "err ValueError":
+            return "keys.public(sec, is_compressed=...) accepted a compression flag for SEC bytes"
+        if a[2][0] == "s" and a[3] == "d" and out.startswith("ok "):
+            if out != " ".join(impl("key_from_sec %s %s" % (a[1], a[2][1:])).split(" ")[:4]):
+                return "keys.public(sec) differs from the key made from that SEC"
+        if a[2][0] == "p" and out.startswith("ok ") and out.split(" ")[3] != ("0" if a[3] == "u" else "1"):
+            return "keys.public(pair, is_compressed) did not keep the flag asked for (default compressed)"
     if k == "key_from_sec":
         blob = unhx(a[2])
         want = ref_sec_point(blob)
@@ -610,9 +681,67 @@ def small_y_points(limit=40):
     return res
 
 
+def gen_keyops(ctx, emit, netnames):
+    rng = ctx.rng
+    btc = nets()["btc"]
+    # Key.verify on raw bytes: real signatures, then every kind of malformation of their DER
+    for _ in range(ctx.n(12, 400)):
+        d = rng.randrange(1, N)
+        key = btc.keys.private(d, is_compressed=rng.random() < 0.5)
+        sec = key.sec()
+        h = rng.randbytes(32)
+        sig = key.sign(h)
+        emit("key_verify %s %s %s" % (hx(sec), hx(h), hx(sig)))
+        emit("key_verify %s %s %s" % (hx(sec), hx(rng.randbytes(32)), hx(sig)))
+        emit("key_verify %s %s %s" % (hx(sec), hx(h), hx(sig + b"\x00")))                      # trailing byte after the sequence
+        emit("key_verify %s %s %s" % (hx(sec), hx(h), hx(sig[:-1])))                           # truncated
+        emit("key_verify %s %s %s" % (hx(sec), hx(h), hx(bytes([sig[0], sig[1] + 1]) + sig[2:] + b"\x00")))   # … inside the sequence
+        emit("key_verify %s %s %s" % (hx(sec), hx(h), hx(b"\x31" + sig[1:])))                  # wrong tag
+        emit("key_verify %s %s %s" % (hx(sec), hx(h), hx(sig[:2] + b"\x03" + sig[3:])))        # wrong integer tag
+        r_, s_ = (int(t) for t in impl("der_dec 1 " + hx(sig))[3:].split(" "))
+        emit("key_verify %s %s %s" % (hx(sec), hx(h), hx(ref_der(r_, N - s_))))               # the other s: valid
+        emit("key_verify %s %s %s" % (hx(sec), hx(h), hx(ref_der(r_, s_ + N))))               # s out of range
+        emit("key_verify %s %s %s" % (hx(sec), hx(h), hx(ref_der(0, s_))))
+        pad = b"\x30" + bytes([len(sig) - 2 + 1]) + b"\x02" + bytes([sig[3] + 1]) + b"\x00" + sig[4:]
+        emit("key_verify %s %s %s" % (hx(sec), hx(h), hx(pad)))                                # non-minimal r (leading zero)
+        blob = bytearray(sig)
+        blob[rng.randrange(len(blob))] ^= 1 << rng.randrange(8)
+        emit("key_verify %s %s %s" % (hx(sec), hx(h), hx(bytes(blob))))
+        emit("key_verify %s %s %s" % (hx(sec), hx(h), hx(rng.randbytes(rng.randrange(0, 12)))))
+        emit("key_verify %s %s %s" % (hx(sec), hx(bytes(32)), hx(sig)))                        # zero hash
+        emit("key_sign_pub %s %s %s" % (rng.choice(netnames), hx(sec), hx(h)))
+    for b in (b"", b"\x30", b"\x30\x00", b"\x30\x02\x02\x00", b"\x30\x04\x02\x00\x02\x00", b"\x30\x06\x02\x01\x01\x02\x01\x01",
+              b"\x30\x81\x06\x02\x01\x01\x02\x01\x01", b"\x30\x06\x02\x01\x81\x02\x01\x01", b"\x30\x80", b"\x30\x84\xff\xff\xff\xff"):
+        emit("key_verify %s %s %s" % (hx(btc.keys.private(7).sec()), hx(b"\x11" * 32), hx(b)))
+    for L in (0, 1, 32, 33, 34, 64, 65, 66):
+        for pfx in range(8):
+            emit("is_sec " + hx((bytes([pfx]) + rng.randbytes(70))[:L]))
+    for n in rng.sample(netnames, min(6, len(netnames))):
+        emit("key_nohier %s %d %d" % (n, rng.randrange(1, N), rng.randrange(2)))
+    # override_network: every ordered pair of a few networks, both flags; public keys are refused
+    some = [n for n in ("btc", "xtn", "ltc", "doge", "bch", "dash") if n in netnames]
+    for n1 in some:
+        for n2 in some:
+            d = rng.choice([1, N - 1, rng.randrange(1, N)])
+            for cfg in ("ossl", "pure") if (n1, n2) in (("btc", "ltc"), ("ltc", "btc")) else ("ossl",):
+                emit("key_override %s %s %s %d %d" % (cfg, n1, n2, d, rng.randrange(2)))
+        emit("key_override_pub %s %s %s" % (n1, rng.choice(some), hx(nets()[n1].keys.private(rng.randrange(1, N)).sec())))
+    # keys.public with a compression flag
+    for _ in range(ctx.n(10, 300)):
+        x, y = rand_point(rng)
+        for flag in "cud":
+            emit("key_public btc p%d,%d %s" % (x, y, flag))
+            emit("key_public %s s%s %s" % (rng.choice(netnames), hx(ref_sec(x, y, rng.random() < 0.5)), flag))
+    for flag in "cud":
+        emit("key_public btc pinf " + flag)
+        emit("key_public btc p1,1 " + flag)
+        emit("key_public btc s02 " + flag)
+
+
 def gen(ctx, emit):
     rng = ctx.rng
     netnames = list(nets())
+    gen_keyops(ctx, emit, netnames)
     if _GRS:
         ctx.note("skipped (groestlcoin_hash module absent): " + ",".join(_GRS))
 
